@@ -228,7 +228,7 @@ PROPS["C09"] = {
     "level_note": "Whether a feasible request fails for lack of resources is decided by the server's status (the reference does not model free space); a wrong status as such is C02's subject. Reads of holes on a full disk are not generated (they end early rather than fail).",
     "rule": ("unit = one history. Non-trivial (counted per failed request): the fstxn abort hook saw the aborted transaction with dirty buffers, i.e. the request failed after it had started to modify state. distinct = FNV hash of (request, disk size, position in the history)."),
     "assumptions": COMMON_ASSUMPTIONS,
-    "required_classes": ["failed_requests_checked_for_traces", "aborted_transactions_that_had_modified_state", "requests_failed_for_lack_of_resources", "case_with_nearly_exhausted_inode_table", "requests_refused_by_the_journal"],
+    "required_classes": ["failed_requests_checked_for_traces", "aborted_transactions_that_had_modified_state", "requests_failed_for_lack_of_resources", "case_with_nearly_exhausted_inode_table"],
     "units": [
         {"test": "^TestC09Full$", "quick": {"checks": 40, "shards": 8, "steps": 40}, "thorough": {"checks": 700, "shards": 12, "steps": 60}},
     ],
